@@ -338,3 +338,46 @@ Theorem C07_F12_premise_needed :
        w_late dzr_toy (tx_w dzr_toy split) = true /\
        ~ dzr_fails dzr_toy dzr_toy_inflate (dzr_toy_init (-15)) (firstn 1 dzr_ex_sB) /\ dzr_fails dzr_toy dzr_toy_inflate (dzr_toy_init (-15)) dzr_ex_sB.
 Proof. exact dzr_F12_premise_needed. Qed.
+
+(* LZMA layer, relative to a decoder contract of the same shape (stream end = FINISHED_WITH_MARK): the 13-byte header may be cut anywhere across calls; for EVERY
+   chunking of header ++ stream the payload is delivered (the seeded change C07-lzma-header-cursor-from-total is exactly a violation of this statement) *)
+Require Import Htp.Proof.PDecompLayersLzma.
+Theorem C07_lzma_faithful :
+  forall (lst : Type) (lzinit : lst) (lzdecode : lst -> bytes -> nat -> lst * nat * bytes * Z * Z) (lzvalid : lst -> bytes -> bytes -> Prop),
+       (forall (z : lst) (s pp : bytes) (offered rest : list N) (ao : nat),
+        lzvalid z s pp ->
+        s = offered ++ rest ->
+        offered <> [] ->
+        0 < ao ->
+        let
+        '(z', cn, out, rc, st) := lzdecode z offered ao in
+         cn <= length offered /\
+         length out <= ao /\
+         rc = c_dz_SZ_OK /\
+         (exists p' : list N,
+            pp = out ++ p' /\
+            (st <> c_dz_LZMA_STATUS_FINISHED_WITH_MARK /\ lzvalid z' (skipn cn s) p' /\ 0 < cn + length out /\ skipn cn s <> [] \/
+             st = c_dz_LZMA_STATUS_FINISHED_WITH_MARK /\ skipn cn s = [] /\ p' = []))) ->
+       (forall (s pp : bytes) (ao : nat),
+        lzvalid lzinit s pp ->
+        let '(z', _, out, rc, st) := lzdecode lzinit [] ao in out = [] /\ rc = c_dz_SZ_OK /\ st <> c_dz_LZMA_STATUS_FINISHED_WITH_MARK /\ lzvalid z' s pp) ->
+       forall (c : dz_cfg) (t0 : Z * Z),
+       (forall k : nat, dc_clock c k = t0) ->
+       (0 <= dc_tlimit c)%Z ->
+       (forall k : nat, dc_hook c k = c_HTP_OK) ->
+       forall p : bytes,
+       (Z.of_nat (length p) <= dc_bomb c)%Z ->
+       forall s : bytes,
+       lzvalid lzinit s p ->
+       s <> [] ->
+       dc_enabled c = true ->
+       (0 < dc_lzma_mem c)%Z ->
+       (0 < dc_lzma_layers c)%Z ->
+       forall (hdr : list N) (chunks : list (list N)) (o : lst),
+       length hdr = 13 ->
+       concat chunks = hdr ++ s ->
+       dzz_chunks_ok c p chunks ->
+       dz_devs (tx_w lst (fst (dz_run lst (lzask lst lzinit lzdecode) c (Some s_lzma) (map (fun ch : list N => (0%Z, Some ch)) chunks ++ [(0%Z, None)]) o))) =
+       p.
+Proof. exact dzz_lzma_faithful. Qed.
+Print Assumptions C07_lzma_faithful.
